@@ -318,14 +318,16 @@ PROPS['C09'] = {
                    '(single pass: quantifiers bind the next name var<n>, an occurrence is replaced by the name bound to its variable, a free variable gets the next name at its first '
                    'occurrence, everything else is copied; a closing parenthesis ends a level), for every text and every initial renaming, without integer overflow for texts shorter '
                    'than 2^31 characters; lemmas over that specification: text without parentheses and braces is its own canonical form with an empty renaming (hence a wild-card '
-                   'proposition is canonical and variable-free, lemma_canon_wild) and nothing but a wild-card proposition has a canonical form of that shape (lemma_canon_not_wild). '
+                   'proposition is canonical and variable-free, lemma_canon_wild) and nothing but a wild-card proposition has a canonical form of that shape (lemma_canon_not_wild); '
+                   'the renaming is injective (lemma_canon_map_injective: every variable gets its own name var<i>); canonising a canonical form changes nothing, for EVERY text '
+                   '(lemma_canon_idempotent: the scanner run over its own output stays in lock-step with the first run, the second renaming being the identity on the names var<i>). '
                    'Proof that every key reported by mark_duplicates_canonized_* is such a wild-card key or the canonical text of a sub-formula with at most one variable, with counter >= 1.'),
     'level_note': ('NOT proved: "same canonical form exactly when equal up to renaming" (the soundness direction is the ASSUMED axiom_key_sound of C04; it needs injectivity of the fully '
-                   'parenthesised rendering and a tree-level alpha-equivalence argument), injectivity of the renaming, idempotence of canonisation, and the occurrence-count clause '
+                   'parenthesised rendering and a tree-level alpha-equivalence argument) and the occurrence-count clause '
                    '("counter n => at least n+1 occurrences with identical domains"). Termination of the exec recursion of canonize_subform is not proved (Verus cannot name the entry value of a '
                    'by-value mut parameter in a loop invariant). Trusted: Peekable<Chars> model, String / HashMap model, dec_digits_int, R-orguard / R-byref / R-noprint / R-peekable / R-fmt-val.'),
-    'explanation': 'contracts/canon.ctr, spec/canon.rs (scan, lemma_scan_fuel, lemma_scan_shrinks), spec/evalctx.rs (lemma_scan_inert, lemma_scan_prefix, lemma_canon_wild, lemma_canon_not_wild), unit mark.',
+    'explanation': 'contracts/canon.ctr, spec/canon.rs (scan, lemma_scan_fuel, lemma_scan_shrinks, lemma_scan_ren), spec/canon_idem.rs (mirror, lemma_idem), spec/evalctx.rs (lemma_canon_wild, lemma_canon_not_wild), unit mark.',
     'trusted': ['prelude/lex_model.rs (Peekable<Chars> as the ghost sequence of remaining characters), prelude/std_model.rs (String keys, &str borrow)',
                 'R-orguard (or-pattern with guard -> equality tests && guard), R-byref (for x in it.by_ref() -> while let Some(x) = it.next()), R-noprint (println! removed from the never-taken branch)',
-                'format!("{}", i32) modelled by the uninterpreted dec_digits_int'],
+                'format!("{}", i32) modelled by the uninterpreted dec_digits_int, assumed injective and free of the character } (axiom_dec_inj, axiom_dec_no_brace)'],
 }
